@@ -57,7 +57,10 @@ pub open spec fn ext_perm_post<F: Field>(old: &CircuitBuilder<F>, new: &CircuitB
 /// return_all_outputs, never exposed, but carried to the next row by the chain constraint
 pub open spec fn base_inputs_pinned<F: Field>(cb: &CircuitBuilder<F>, inputs: Seq<Option<ExprId>>, new_start: bool) -> bool {
     &&& forall|j: int| 0 <= j < 16 ==> ((#[trigger] inputs[j]) matches Some(t) ==> cb.bound(t))
-    &&& ((exists|j: int| 0 <= j < 16 && (#[trigger] inputs[j]) is None) ==> (new_start || cb.chain@))
+    // an omitted CAPACITY limb is zero on a chain start (asserted by the compact AIR) or chained to the previous row
+    &&& ((exists|j: int| 8 <= j < 16 && (#[trigger] inputs[j]) is None) ==> (new_start || cb.chain@))
+    // an omitted RATE limb is chained to the previous row; on a chain start it is a FREE input (no bus read, no zero assertion)
+    &&& ((exists|j: int| 0 <= j < 8 && (#[trigger] inputs[j]) is None) ==> (!new_start && cb.chain@))
 }
 pub open spec fn base_perm_post<F: Field>(old: &CircuitBuilder<F>, new: &CircuitBuilder<F>, new_start: bool,
         inputs: Seq<Option<ExprId>>, out_ctl: Seq<bool>, return_all: bool, outs: Seq<Option<ExprId>>) -> bool {
@@ -108,7 +111,7 @@ pub open spec fn cfg_base<C: ChallengerPermConfig>(c: &C) -> bool {
 }
 /// the permutation configuration fits the sponge geometry (true for every shipped instantiation)
 pub open spec fn geom_ok<F: Field>(width: int, rate: int, dd: int, wext: int, rext: int) -> bool {
-    if dd == 1 { width == 16 && rate <= 8 }
+    if dd == 1 { width == 16 && rate == 8 }
     else { wext * sp_dim::<F>() <= width && rate <= rext * sp_dim::<F>() && rext <= wext && wext * sp_dim::<F>() < 0x1_0000_0000 }
 }
 impl<const WIDTH: usize, const RATE: usize, C: ChallengerPermConfig> CircuitChallenger<WIDTH, RATE, C> {
@@ -121,7 +124,7 @@ impl<const WIDTH: usize, const RATE: usize, C: ChallengerPermConfig> CircuitChal
     pub open spec fn tinv<F: Field>(&self, cb: &CircuitBuilder<F>, full: bool) -> bool {
         &&& self.geom::<F>() && perm_ops_enabled()
         &&& (self.initialized ==> self.state@.len() == WIDTH)
-        &&& (!self.initialized ==> self.input_buffer@.len() == 0 && self.output_buffer@.len() == 0)
+        &&& (!self.initialized ==> self.input_buffer@.len() == 0 && self.output_buffer@.len() == 0 && !self.duplexed_once)
         &&& (if full { self.input_buffer@.len() <= RATE && self.initialized } else { self.input_buffer@.len() < RATE })
         &&& self.output_buffer@.len() <= RATE
         &&& cb.all_bound(self.input_buffer@) && cb.all_bound(self.output_buffer@)
@@ -232,7 +235,8 @@ def base_wrapper(u, CB, IMPL, name):
 
 def duplex_ext(u, F, IMPL, name, cfgname, cfgty, wrapper):
     d = common(u.extract(F, IMPL, name, 'CircuitChallenger::' + name))
-    d.set_sig('R11', f'fn {name}<BF, EF: ExtX>(&mut self, circuit: &mut CircuitBuilder<EF>, {cfgname}: {cfgty})')
+    d.set_sig('R11', f'fn {name}<EF: ExtX>(&mut self, circuit: &mut CircuitBuilder<EF>, {cfgname}: {cfgty})')
+    d.rewrite_re('R11', r'::<BF>', '::<EF>', min_count=2)  # BF is a phantom parameter of the builder stubs
     d.rewrite('R5', 'for (limb, &ext_out) in ext_outputs.iter().enumerate() {', 'for limb in 0..ext_outputs.len() { let ext_out = ext_outputs[limb];')
     d.rewrite('R5', 'for (i, coeff) in coeffs.into_iter().enumerate() {', 'for i in 0..coeffs.len() { let coeff = coeffs[i];')
     d.requires('inv', f'''old(self).initialized && old(self).state@.len() == WIDTH && perm_ops_enabled() && old(circuit).all_bound(old(self).state@)
@@ -285,20 +289,24 @@ def duplex_ext(u, F, IMPL, name, cfgname, cfgty, wrapper):
     return d
 
 
-def duplex_base(u, F, IMPL, name, cfgname, cfgty, nfrom):
+def duplex_base(u, F, IMPL, name, cfgname, cfgty):
     d = common(u.extract(F, IMPL, name, 'CircuitChallenger::' + name))
     d.set_sig('R11', f'fn {name}<EF: ExtX>(&mut self, circuit: &mut CircuitBuilder<EF>, {cfgname}: {cfgty}, absorb_len: usize)')
-    FROM = 'core::array::from_fn(|i| if i < RATE { Some(self.state[i]) } else { None });'
-    LOOP = '''{ let mut a_: [Option<Target>; 16] = [None; 16];
+    # R6 (generic): `core::array::from_fn(|i| if COND { Some(EXPR) } else { None })` -> explicit loop over a [None; 16] array;
+    # the loop invariant is generated from the captured COND / EXPR, whatever they are
+    def _from_fn(m):
+        cond, expr = m.group(1).strip(), m.group(2).strip()
+        sp = lambda t: re.sub(r'\bi\b', 'j', t).replace('self.state[', 'self.state@[')
+        return '''{ let mut a_: [Option<Target>; 16] = [None; 16];
               for i in 0..16usize
                   invariant self.state@.len() == WIDTH && WIDTH == 16,
-                            forall|j: int| 0 <= j < i ==> (#[trigger] a_@[j]) == (if j < RATE { Some(self.state@[j]) } else { None::<Target> }),
+                            forall|j: int| 0 <= j < i ==> (#[trigger] a_@[j]) == (if %s { Some(%s) } else { None::<Target> }),
                             forall|j: int| i <= j < 16 ==> (#[trigger] a_@[j]) is None,
-              { if i < RATE { a_[i] = Some(self.state[i]); } }
-              a_ };'''
-    d.rewrite('R6', FROM, LOOP, count=nfrom)
+              { if %s { a_[i] = Some(%s); } }
+              a_ };''' % (sp(cond), sp(expr), cond, expr)
+    d.rewrite_re('R6', r'core::array::from_fn\(\|i\|\s*\{?\s*if\s+([^{}]+?)\s*\{\s*Some\(([^{}]+?)\)\s*\}\s*else\s*\{\s*None\s*\}\s*\}?\s*\);', _from_fn, min_count=1)
     d.rewrite('R6', 'self.state = outputs.to_vec();', 'self.state = outputs.as_slice().to_vec();')
-    d.requires('inv', f'''old(self).initialized && old(self).state@.len() == WIDTH && perm_ops_enabled() && {cfgname}.dd == 1 && WIDTH == 16 && RATE <= 8
+    d.requires('inv', f'''old(self).initialized && old(self).state@.len() == WIDTH && perm_ops_enabled() && {cfgname}.dd == 1 && WIDTH == 16 && RATE == 8 && absorb_len <= RATE
             && (forall|i: int| 0 <= i < RATE ==> old(circuit).bound(#[trigger] old(self).state@[i])) && (old(self).duplexed_once ==> old(circuit).chain@)''')
     d.ensures('rate_pinned_capacity_chained', '(forall|i: int| 0 <= i < 8 ==> final(circuit).bound(#[trigger] final(self).state@[i])) && final(circuit).chain@ && final(self).duplexed_once')
     d.ensures('shape', 'final(self).state@.len() == WIDTH && final(self).initialized')
@@ -347,8 +355,8 @@ def build():
     TIMPL = r'RecursiveChallenger<BF, EF> for CircuitChallenger<WIDTH, RATE, C>'
     d1 = duplex_ext(u, F, IMPL, 'duplexing_ext', 'poseidon2_config', 'Poseidon2Config', 'add_poseidon2_perm_for_challenger')
     d2 = duplex_ext(u, F, IMPL, 'duplexing_ext_p1', 'poseidon1_config', 'Poseidon1Config', 'add_poseidon1_perm_for_challenger')
-    d3 = duplex_base(u, F, IMPL, 'duplexing_base', 'poseidon2_config', 'Poseidon2Config', 2)
-    d4 = duplex_base(u, F, IMPL, 'duplexing_base_p1', 'poseidon1_config', 'Poseidon1Config', 1)
+    d3 = duplex_base(u, F, IMPL, 'duplexing_base', 'poseidon2_config', 'Poseidon2Config')
+    d4 = duplex_base(u, F, IMPL, 'duplexing_base_p1', 'poseidon1_config', 'Poseidon1Config')
 
     # ---------------------------------------------------------------- the public operations keep the taint invariant
     FRAME = 'final(circuit).extends(old(circuit)) && final(self).config == old(self).config'
@@ -383,7 +391,10 @@ def build():
                 assert forall|k: int| 0 <= k < self.state@.len() && st_b.len() == self.state@.len() && (k < RATE || !cfg_base(&self.config))
                     implies circuit.bound(#[trigger] self.state@[k]) by { if k != i { assert(circuit.bound(st_b[k])); } }
             }""", nth=0)
-    d.after('let zero = circuit.define_const(EF::zero());', 'proof { lemma_bound_extends(old(circuit), circuit, self.state@); assert(self.state_pinned(circuit)) by { assert forall|k: int| 0 <= k < RATE implies circuit.bound(#[trigger] self.state@[k]) by { assert(old(circuit).bound(self.state@[k])); } } }')
+    d.before('let zero = circuit.define_const(EF::zero());', 'let ghost circ_z = *circuit;')
+    d.after('let zero = circuit.define_const(EF::zero());', """proof {
+                assert forall|k: int| 0 <= k < self.state@.len() && (k < RATE || !cfg_base(&self.config)) implies circuit.bound(#[trigger] self.state@[k]) by { assert(circ_z.bound(self.state@[k])); }
+            }""")
     d.loop('for j_ in num_absorbed..RATE', invariants=[
         ('shape', 'self.state@.len() == WIDTH && self.input_buffer@.len() == 0 && self.config == old(self).config && self.duplexed_once == old(self).duplexed_once && self.initialized && self.output_buffer == old(self).output_buffer'),
         ('pinned', 'self.state_pinned(circuit)'),
